@@ -54,6 +54,10 @@ def make_pool(rng):
     # a station high enough that steep shots leave the modelled troposphere (RuntimeWarning inside the loop)
     specs[0]["atmo"] = {"kind": "icao", "alt_ft": 35950.0}
     specs[0]["rel_deg"], specs[0]["look_deg"] = 30.0, 0.0
+    # a measured table that starts above Mach 0 (as radar-derived curves do)
+    tbl = [p for p in gen.smooth_table(rng, 25) if p[0] >= 0.4]
+    specs[1]["table"] = tbl
+    specs[1].pop("_restate", None)
     shots = [build.shot(s) for s in specs]
     shared = 0
     # share objects on purpose
@@ -306,6 +310,8 @@ def check_isolation(ctx, case):
         s.pop("_restate", None)
         if k < 2:
             s["atmo"] = {"kind": "icao", "alt_ft": case["alt_ft"]}          # equal factory arguments on purpose
+        if k == 2:
+            s["table"] = [p for p in gen.smooth_table(rng, 25) if p[0] >= 0.4]          # a table that starts above Mach 0
         specs.append(s)
 
     def build_set():
